@@ -27,6 +27,10 @@ pub struct Written {
 
 fn linked_concat(lb: &mut LinkedBytes) -> Vec<u8> {
     let mut out: Vec<u8> = Vec::new();
+    // (linkedbytes reports WriteZero when there is nothing at all to write)
+    if lb.bytes().is_empty() && lb.iter_list().all(|n| n.as_ref().is_empty()) {
+        return out;
+    }
     lb.sync_write_all_vectored(&mut out).expect("write to Vec");
     out
 }
